@@ -46,7 +46,7 @@ def analyse(emd, x, kw, nproc, tdir, seed):
     step = Fraction(kw.get('mask_step_factor', 2)).limit_denominator(16)
     run = {'kind': 'run', 'src': srcname, 'mode': kw['mask_amp_mode'], 'nphases': kw['nphases'], 'nproc': nproc, 'seed': seed,
            'raised': 0, 'ladder': int(srcname != 'list'), 'z6': [], 'p': step.numerator, 'q': step.denominator,
-           'list_ok': 1, 'zc_ok': 1, 'same_across_procs': 1, 'nfreqs_ok': 1}
+           'list_ok': 1, 'zc_ok': 1, 'if_ok': 1, 'same_across_procs': 1, 'nfreqs_ok': 1}
     if isinstance(out, str):
         run['raised'] = 1
         run['err'] = out
@@ -64,6 +64,12 @@ def analyse(emd, x, kw, nproc, tdir, seed):
         sg = np.sign(first)
         nzc = sum(1 for i in range(N - 1) if sg[i + 1] != sg[i])
         run['zc_ok'] = int(freqs[0] == nzc / N / 4)
+    if srcname == 'if':
+        # documented: the amplitude-weighted mean instantaneous frequency (cycles per sample) of the unmasked first IMF
+        first = S.get_next_imf(X2, **opts)[0]
+        _, IF, IA = emd.spectra.frequency_transform(first[:, 0, None], 1, 'nht', smooth_phase=3)
+        want = float(np.average(IF, weights=IA))
+        run['if_ok'] = int(abs(freqs[0] - want) <= 1e-12 * max(abs(want), 1e-300))
     # other worker counts must give the identical result
     other = 1 if nproc != 1 else 3
     o2 = core.guarded(S.mask_sift, x, ret_mask_freq=True, nprocesses=other, _timeout=120, **kw)
@@ -231,7 +237,7 @@ def run():
                        'nprocesses 1..8 (each also compared with a run on a different worker count) plus zero-amplitude runs; non-trivial = layers beyond the first with more than one phase'
                        % (n, w, nruns))
     ctx.assumptions += ['masks are recovered as (array received by the job - layer input) and fitted by least squares at the RETURNED frequency (residual <= 1e-8 amp)',
-                        "for 'if' the first frequency is taken as observed; only ladder, amplitudes, phases and collation are checked",
+                        "for 'if' the first frequency is recomputed by the harness from the library's own frequency_transform (C09) as the amplitude-weighted mean",
                         'collation oracle: unmasked get_next_imf on the traced arrays']
     return ctx.finish()
 
